@@ -173,6 +173,7 @@ struct Extractor : public RecursiveASTVisitor<Extractor> {
       else if (auto *X = dyn_cast<CXXFunctionalCastExpr>(N)) N = X->getSubExpr();
       else if (auto *X = dyn_cast<CXXDefaultArgExpr>(N)) N = X->getExpr();
       else if (auto *X = dyn_cast<CXXDefaultInitExpr>(N)) N = X->getExpr();
+      else if (auto *X = dyn_cast<CXXRewrittenBinaryOperator>(N)) N = X->getSemanticForm();
       if (N == E) break;
       E = N;
       if (!E) return nullptr;
